@@ -1,5 +1,5 @@
 import sys
-sys.path.insert(0,'/verif')
+import os; sys.path.insert(0, os.path.dirname(os.path.dirname(os.path.abspath(__file__))))
 from vf import verus, assemble
 from vf.rsscan import ScanError
 name=sys.argv[1]; twin=len(sys.argv)>2 and sys.argv[2]=='twin'
